@@ -67,6 +67,10 @@ def build(rng, case):
                 cellm[i, j] = float(rng.choice([-1, 1])) * cellm[i, i] * np.radians(10 ** rng.uniform(-5, -2.3))
     else:
         cellm = atomsgen.random_cell(rng, case["cell"], scale=9.0)
+    if case["cell"] in ("ortho", "tri") and case["s"] % 4 == 1:
+        # a cell typed with whole numbers (integer array / nested list of ints)
+        cellm = np.array(np.round(cellm), dtype=int)
+        case["_whole_number_cell"] = True
     extras = {}
     for kind, pool in (("atom", ["_atom_site_occupancy", "_atom_site_vmon_tag"]), ("bond", ["_geom_bond_distance", "_ccdc_geom_bond_type"]),
                        ("angle", ["_geom_angle", "_geom_angle_vmon"]), ("dihedral", ["_geom_torsion", "_geom_torsion_vmon"])):
@@ -309,6 +313,8 @@ def run_case(case, ctx):
         fail("%s coordinates were asked for (flag given as %s), the file has %s" % ("fractional" if mode == "fract" else "Cartesian", ["bool", "bool", "numpy.bool_", "int"][len(a) % 4],
                                                                                    "fractional" if wrote_fract else ("Cartesian" if wrote_cart else "neither")), "coordinate_kind")
     st.seen("flag_form", ["bool", "bool", "numpy.bool_", "int"][len(a) % 4])
+    if case.get("_whole_number_cell"):
+        st.count("structures_with_a_cell_of_whole_numbers")
     if case.get("many_atoms"):
         # only the round trip itself for the big structure (the second readers and reading variants are quadratic in the atom count)
         t2 = save(b, mode)
@@ -482,6 +488,8 @@ def run_case(case, ctx):
 
 def requirements(stats, tier):
     need = []
+    if stats.get("structures_with_a_cell_of_whole_numbers") < (10 if tier == "quick" else 2000):
+        need.append("structures whose cell is typed with whole numbers: %d" % stats.get("structures_with_a_cell_of_whole_numbers"))
     if stats.get("files_read_back") < (180 if tier == "quick" else 50000):
         need.append("too few files read back: %d" % stats.get("files_read_back"))
     if stats.nseen("class") < 18:
